@@ -177,6 +177,7 @@ func (fr *Frame) instr(n *unode, s *State, g *Term, ins ssa.Instruction, rets *[
 		m := val(ins.Map)
 		mt := ins.Map.Type().Underlying().(*types.Map)
 		ks, vs := mapKeys(x, mt)
+		x.mapTag(m, mt)
 		fr.oblige("nil", "", ins.Pos(), g, c.Neq(m, c.Null()), "assignment to entry in non-nil map")
 		k := val(ins.Key)
 		v := val(ins.Value)
@@ -733,6 +734,7 @@ func (fr *Frame) lookup(s *State, g *Term, ins *ssa.Lookup) *Term {
 	xv := fr.value(s, ins.X)
 	if mt, ok := types.Unalias(ins.X.Type()).Underlying().(*types.Map); ok {
 		ks, vs := mapKeys(x, mt)
+		x.mapTag(xv, mt)
 		k := fr.value(s, ins.Index)
 		pres := c.And(c.Neq(xv, c.Null()), c.Select(c.Select(x.mapPresent(s, ks), xv), k))
 		v := c.Ite(pres, c.Select(c.Select(x.mapVals(s, ks, vs), xv), k), x.ti.zero(mt.Elem()))
@@ -758,6 +760,7 @@ func (fr *Frame) next(s *State, g *Term, ins *ssa.Next) *Term {
 	tup := ins.Type().(*types.Tuple)
 	if mt, isMap := types.Unalias(rng.X.Type()).Underlying().(*types.Map); isMap {
 		ks, vs := mapKeys(x, mt)
+		x.mapTag(coll, mt)
 		k := c.Fresh("range_k", ks)
 		pres := c.Select(c.Select(x.mapPresent(s, ks), coll), k)
 		x.assume(g, c.Implies(ok, c.And(c.Neq(coll, c.Null()), pres)))
